@@ -357,9 +357,11 @@ _kf_cache = None
 
 
 def known_findings():
+    """'known:' entries of KNOWN_FINDINGS.txt.  Called from worker threads: the list is built locally and published in
+    one assignment (a half-filled cache once made an entry compile without its -DKF_ define)."""
     global _kf_cache
     if _kf_cache is None:
-        _kf_cache = []
+        out = []
         p = os.path.join(VERIF, "KNOWN_FINDINGS.txt")
         if os.path.exists(p):
             for line in open(p):
@@ -369,7 +371,8 @@ def known_findings():
                 d = dict(re.findall(r'(\w+)=("(?:[^"]*)"|\S+)', line[6:]))
                 d = {k: v.strip('"') for k, v in d.items()}
                 if "property" in d and "id" in d and "obligation" in d:
-                    _kf_cache.append(d)
+                    out.append(d)
+        _kf_cache = out
     return _kf_cache
 
 
